@@ -115,8 +115,18 @@ def finish(rep: Report) -> int:
     return rc
 
 
+def evidence_dir() -> Path:
+    """evidence/ holds what the checks found on /repo itself; runs aimed at a scratch copy
+    (VERIF_REPO, used by the self-test and the seeded regressions) write elsewhere."""
+    repo = os.environ.get("VERIF_REPO") or "/repo"
+    if os.path.realpath(repo) != "/repo":
+        return OUT / "evidence-scratch"
+    return EVIDENCE
+
+
 def write_evidence(rep: Report, violations: int, known: list[str]) -> None:
-    EVIDENCE.mkdir(exist_ok=True)
+    EVIDENCE = evidence_dir()
+    EVIDENCE.mkdir(parents=True, exist_ok=True)
     cov = {
         "states": rep.states,
         "transitions": rep.transitions,
